@@ -5,7 +5,7 @@ from common import (Check, Machinery, run_tlc, run_drivers_parallel, judge_shard
                     check_coverage, undy)
 
 CLAUSES = {
-    "C01": {"not_multiple_of_step", "out_of_code_range", "outside_minmax", "range_not_reachable_set", "code_lost_in_float32_ste", "exc",
+    "C01": {"not_multiple_of_step", "out_of_code_range", "outside_minmax", "range_not_reachable_set", "code_lost_in_float32_ste", "exc", "range_raises",
             "nonfinite"},
     "C02": {"not_nearest", "error_above_half_step", "not_idempotent", "not_monotone"},
 }
@@ -76,6 +76,11 @@ def run(pid, tier, seed):
   hist = [dict(c, hist="reassign") for j, c in enumerate(cfgs)
           if c["cls"] in ("bits", "relu") and c.get("al_none") and j % 3 == seed % 3]
   cfgs += hist
+  # the library-wide sigmoid mode (set_internal_sigmoid) is read at call time: smooth mode set before construction
+  # and after the quantizer was already built and called
+  modes = [dict(c, sig="smooth", hist=h) for c in cfgs if c["cls"] in ("tanh", "sigmoid") and c["bits"] <= (4 if tier == "quick" else 6)
+           for h in ("mode_before", "mode_after")]
+  cfgs += modes
   root = scratch_root()
   cpath = os.path.join(root, "fixed_cfgs.json")
   json.dump(cfgs, open(cpath, "w"))
